@@ -179,8 +179,14 @@ impl Net {
     pub fn kill(&mut self, a: Addr, pdrop: f64, rng: &mut Rng) {
         self.dead.insert(a);
         self.inflight.remove(&a);
-        for v in self.inflight.values_mut() {
-            v.retain(|p| !(p.from == a && rng.chance(pdrop)));
+        // receivers in address order: the fate of an in-flight packet must be a function of the scenario, not of the
+        // iteration order of this map (differential checks compare two runs of one scenario)
+        let mut keys: Vec<Addr> = self.inflight.keys().copied().collect();
+        keys.sort_unstable();
+        for k in keys {
+            if let Some(v) = self.inflight.get_mut(&k) {
+                v.retain(|p| !(p.from == a && rng.chance(pdrop)));
+            }
         }
     }
     /// Put a forged packet on the wire, delivered at `at` after all genuine packets of that instant.
